@@ -404,6 +404,27 @@ fn main() {
         }));
     }
 
+    // In half of the executions a *sibling* slot is already initialised (configuration 7) when the race starts: slots are
+    // independent of each other, so the race must go exactly as it does in an otherwise empty process. For a fresh or
+    // the internal slot the sibling is the shared slot; for the shared slot it is the internal one.
+    let mut st2 = seed ^ 0x5151_5151_5151_5151;
+    let sibling = splitmix(&mut st2) % 2 == 0;
+    if sibling {
+        let setup = emit::setup()
+            .emit_to(TagEmitter(7, shared.clone()))
+            .emit_when(TagFilter(7, shared.clone()))
+            .with_ctxt(TagCtxt(7))
+            .with_clock(TagClock(7))
+            .with_rng(TagRng(7));
+        let ok = match slot {
+            SlotKind::Shared => setup.try_init_internal().is_some(),
+            _ => setup.try_init().is_some(),
+        };
+        if !ok {
+            shared.violations.lock().unwrap().push("sibling_slot_not_initialised: the first initialiser of the sibling slot failed".into());
+        }
+    }
+
     gate.store(true, Ordering::Release);
     for h in handles {
         h.join().unwrap();
@@ -441,8 +462,9 @@ fn main() {
     let mut flips = flips.lock().unwrap().clone();
     flips.sort();
     let sig = format!(
-        "SIG seed={seed} slot={} inits={n_init} observers={n_obs} rounds={obs_rounds} outcomes={outcomes:?} flips={flips:?} records={}",
+        "SIG seed={seed} slot={}{} inits={n_init} observers={n_obs} rounds={obs_rounds} outcomes={outcomes:?} flips={flips:?} records={}",
         slot.name(),
+        if sibling { "+sibling" } else { "" },
         shared.received.lock().unwrap().len()
     );
     // one line per execution, so that concurrent executions (miri many-seeds) cannot interleave inside it
